@@ -52,11 +52,28 @@ InvalidIn(q) == \/ TestOf(q.test) \notin ValidTest
                      \/ \E k \in 1..Len(q.filters[i].tms) : MTOf(q.filters[i].tms[k].mt) \notin ValidMT
 
 \* verdict codes of the recorder: 0 false, 1 true, 2 error, 3 panic
-Accepted(q, card) ==
-  LET V == QueryVals(q, card)
-      codes == (IF TRUE \in V THEN {1} ELSE {}) \cup (IF FALSE \in V THEN {0} ELSE {}) IN
-  IF InvalidIn(q) THEN {2} \cup (IF Cardinality(V) = 1 THEN codes ELSE {})   \* an error, or the value every reading of the invalid enumeration agrees on
-  ELSE codes                                                                \* a valid query: its value (either one where the statement leaves it open)
+\* "never guessed": evaluation in order, stopping at the first operand that decides (anyof: a true one, allof: a false one);
+\* an unknown test is an error as soon as there is something to combine, an unknown match type as soon as its text-match is
+\* evaluated.  Values "T" / "F" / "E"(rror); g is the value taken in the one case the statement leaves open.
+RECURSIVE LazyFold(_, _, _)
+LazyFold(test, vs, i) == IF i > Len(vs) THEN (IF test = "anyof" THEN "F" ELSE "T")
+                         ELSE IF vs[i] = "E" THEN "E"
+                         ELSE IF test = "anyof" /\ vs[i] = "T" THEN "T"
+                         ELSE IF test = "allof" /\ vs[i] = "F" THEN "F"
+                         ELSE LazyFold(test, vs, i + 1)
+LazyTM(tm, v) == IF MTOf(tm.mt) \notin ValidMT THEN "E" ELSE IF Raw(MTOf(tm.mt), tm.text, v) # tm.neg THEN "T" ELSE "F"
+LazyProp(pf, card, g) ==
+  IF ~Has(card, pf.name) THEN (IF pf.isnd THEN (IF pf.tms # << >> THEN g ELSE "T") ELSE "F")
+  ELSE IF pf.isnd THEN "F"
+  ELSE IF pf.tms = << >> THEN "T"
+  ELSE IF TestOf(pf.test) \notin ValidTest THEN "E"
+  ELSE LazyFold(TestOf(pf.test), [i \in 1..Len(pf.tms) |-> LazyTM(pf.tms[i], Val(card, pf.name))], 1)
+LazyQuery(q, card, g) == IF TestOf(q.test) \notin ValidTest THEN "E"
+                         ELSE LazyFold(TestOf(q.test), [i \in 1..Len(q.filters) |-> LazyProp(q.filters[i], card, g)], 1)
+CodeOf(v) == IF v = "T" THEN 1 ELSE IF v = "F" THEN 0 ELSE 2
+\* accepted verdicts: an error for any query with an unknown enumeration value anywhere (eager validation), or the outcome of
+\* the in-order evaluation (which is an error whenever the unknown value is actually needed)
+Accepted(q, card) == (IF InvalidIn(q) THEN {2} ELSE {}) \cup {CodeOf(LazyQuery(q, card, g)) : g \in {"T", "F"}}
 
 \* ---- Filter: matching cards in input order, cut to the first Limit, projected (valid queries only)
 CardMatch(q, card) == TRUE \in QueryVals(q, card)
